@@ -73,7 +73,7 @@ ENTRY = {
                 "UTF-8 and url_encode; civil_from_days and days_from_civil are mutually inverse on ALL day numbers / valid dates, with the derived laws of "
                 "year/month/day/quarter/day_of_week/day_of_year/last_day_of_month/date_trunc/date_add/date_diff. Tied to the code by running SELECT f(args) through the "
                 "SQL front door on generated literal and column arguments and comparing with the Lean evaluation; 28 laws are also judged on the engine's own outputs "
-                "without the model. 19 listed known findings (engine contradicts the documented value, panics, or reads an argument from row 0 only) are attributed only "
+                "without the model. 14 open known findings (5 more repaired by fix: commits) (engine contradicts the documented value, panics, or reads an argument from row 0 only) are attributed only "
                 "when the engine's output equals the mirrored deviation exactly. Floating-point, regex, JSON, hash, time-zone, array functions are NOT modelled.",
         "design_ref": "DESIGN.md §6 C36",
         "level_note": "Trusted: Lean kernel; axioms propext/Classical.choice/Quot.sound; the reading of the Trino documentation written as IQE.Spec.Fn; harness SQL "
